@@ -275,8 +275,15 @@ def check_property(prop, tier, seed, spec):
             vio_lines.append(f'VIOLATION property={prop} replay={path}{tail}')
     # ---- evidence
     wall = time.time() - t0
-    n_ob = len(obligations) - sum(1 for o in failed if id(o) in covered)
-    n_dis = len(obligations) - len(failed)
+    # bounded stand-ins and template validations are checked and can fail the run, but they are never
+    # counted among the obligations proved: they are reported separately (coverage.bounded_checks)
+    def is_bounded(o):
+        return o.get('kind') in ('bounded', 'template') or str(o.get('backend', '')).startswith('native')
+    proved = [o for o in obligations if not is_bounded(o)]
+    n_ob = len(proved) - sum(1 for o in failed if id(o) in covered and not is_bounded(o))
+    n_dis = len(proved) - sum(1 for o in failed if not is_bounded(o))
+    bounded_checks = [{'name': o['name'], 'status': 'passed' if o['status'] == 'discharged' else o['status'],
+                       'counted_as_proved': False} for o in obligations if is_bounded(o)]
     samples = []
     for o in obligations[:: max(1, len(obligations) // 12)][:12]:
         samples.append({'obligation': o['name'], 'path': o.get('path', ''), 'status': o['status'],
@@ -298,6 +305,7 @@ def check_property(prop, tier, seed, spec):
                                'rule': 'every function generates obligations, has a satisfiable precondition and '
                                        'at least one normally returning path'},
             'bounded': [er.get('bounded') for er in extra_results if er.get('bounded')],
+            'bounded_checks': bounded_checks,
             'lemmas': [er.get('summary') for er in extra_results if er.get('summary')],
             'source_hashes': source_hashes(src),
             'explanation': spec.get('explanation', ''),
@@ -312,7 +320,8 @@ def check_property(prop, tier, seed, spec):
     # ---- verdict
     for line in kf_lines:
         print(line)
-    print(f'{prop}: functions={len(keys)} obligations={len(obligations)} discharged={n_dis} '
+    print(f'{prop}: functions={len(keys)} obligations={len(proved)} discharged={n_dis} '
+          f'bounded-checks={len(bounded_checks)}(passed={sum(1 for b in bounded_checks if b["status"] == "passed")}) '
           f'known-finding-obligations={sum(1 for o in failed if id(o) in covered)} violations={len(violations)} '
           f'undecided={len(undecided)} wall={wall:.1f}s')
     if faults:
